@@ -650,6 +650,55 @@ def coq_text(sup, mn_id, fid, nchunk=100, exsup=()):
     return "\n".join(L) + "\n"
 
 
+def coq_disjoint_text(sup):
+    """coq/gen/IsaA64Disjoint.v: pairwise disjointness of the rows. Rows whose fixed bits do not separate them are recorded (class 0 same
+    mnemonic, 1 the database's aliasOf relation, 2 other: architectural aliases / a general form and its special cases); every other pair
+    conflicts in a fixed bit (checked by reflection over all pairs)."""
+    ov = overlap_pairs(sup)
+    L = ["(* GENERATED by tools/c02_rows.py from /repo/db/isa_aarch64.json. Do not edit. *)",
+         "From Coq Require Import ZArith List Bool.", "From Verif Require Import A64.A64Tmpl A64.A64Sem.", "From VerifGen Require Import IsaA64Db.",
+         "Import ListNotations.", "Local Open Scope Z_scope.",
+         "(* pairs of rows whose fixed bits do not separate them: (row id, row id, class) - 0 same mnemonic, 1 aliasOf relation of the database, 2 other *)",
+         "Definition overlap_pairs : list (Z * Z * Z) := ["]
+    L.append(";\n".join("  (%d, %d, %d)" % p[:3] for p in ov))
+    L += ["].", "Definition overlap_count : Z := %d." % len(ov),
+          "(* every two rows either have different fixed bits on a common fixed position, or are the same row, or are a recorded pair *)",
+          "Lemma rows_pairwise : sigs_pairwise_ok overlap_pairs (map row_sig rows) = true.", "Proof. vm_compute. reflexivity. Qed.",
+          "Lemma overlap_pairs_tight : overlap_tight overlap_pairs (map row_sig rows) = true.", "Proof. vm_compute. reflexivity. Qed.",
+          "Lemma overlap_counted : Z.of_nat (length overlap_pairs) = overlap_count.", "Proof. vm_compute. reflexivity. Qed."]
+    return "\n".join(L) + "\n", ov
+
+
+def row_fixed(e):
+    v = m = 0
+    pos = 32
+    for it in e["items"]:
+        if it[0] == "F":
+            pos -= it[1]; v |= it[2] << pos; m |= ((1 << it[1]) - 1) << pos
+        else:
+            pos -= it[2] - it[3] + 1
+    return v, m
+
+
+def overlap_pairs(sup):
+    """-> [(id1, id2, class, name1, name2)] for the pairs (in list order) whose fixed bits do not conflict"""
+    R = []
+    for e in sup:
+        v, m = row_fixed(e)
+        r = e["row"]
+        al = {r["name"]} | set((r.get("aliasOf") or "").replace("|", " ").split())
+        R.append((r["idx"], r["name"], v, m, al))
+    out = []
+    for i in range(len(R)):
+        a = R[i]
+        for j in range(i + 1, len(R)):
+            b_ = R[j]
+            if (a[2] ^ b_[2]) & a[3] & b_[3] == 0:
+                cls = 0 if a[1] == b_[1] else (1 if a[4] & b_[4] else 2)
+                out.append((a[0], b_[0], cls, a[1], b_[1]))
+    return out
+
+
 def build(repo=None):
     rows = load_rows(repo)
     applied = apply_overrides(rows, load_overrides())
@@ -668,7 +717,7 @@ def build(repo=None):
     sup.sort(key=lambda e: (e["row"]["name"], 1 if any(s[0] == "SExtReg" for s in e["syn"]) else 0, e["row"]["idx"]))
     mn_id, fid = numbering(sup + exsup)
     return {"rows": rows, "sup": sup, "unsup": unsup, "mn_id": mn_id, "fid": fid, "applied": applied, "excluded": excluded_applied, "exsup": exsup,
-            "coq": coq_text(sup, mn_id, fid, exsup=exsup)}
+            "coq": coq_text(sup, mn_id, fid, exsup=exsup), "coq_disjoint": coq_disjoint_text(sup)[0], "overlap": overlap_pairs(sup)}
 
 
 if __name__ == "__main__":
@@ -681,6 +730,7 @@ if __name__ == "__main__":
         print("  %5d %s" % (v, k))
     if len(sys.argv) > 1 and sys.argv[1] == "--write":
         open(os.path.join(vlib.COQ, "gen", "IsaA64Db.v"), "w").write(b["coq"])
+        open(os.path.join(vlib.COQ, "gen", "IsaA64Disjoint.v"), "w").write(b["coq_disjoint"])
     if len(sys.argv) > 1 and sys.argv[1] == "--gp":
         for r, reason in b["unsup"]:
             if "GP" in r["cat"]:
